@@ -336,36 +336,29 @@ class Checkers(object):
         return True, 'non-zero ids come from handle_channel_readable after a successful lookup of the same id; channel 0 never sends Set*Handler'
 
     def chk_write_loop_guarded(self):
-        root = self.hir('io_loop::Inner::write_to_stream')
-        idx = self.if_guards(root, lambda n: n.get('k') == 'Index')
-        subs = self.if_guards(root, lambda n: n.get('k') == 'Binary' and n['op'] == '-')
+        """Read off the events of write_to_stream: `outbuf[pos..]` (and any `len - pos`) only where (pos < len) holds with
+        len = outbuf.len() taken before the loop, and nothing but drain_written / clear touches the buffer."""
+        fnp = 'io_loop::Inner::write_to_stream'
+        evs, _ = self.ctx.events(fnp)
+        idx = [e for e in evs if e.kind == 'index']
         if len(idx) != 1:
             return False, 'expected one index'
-        ig, inode = idx[0]
-        rng = H.peel(inode['i'])
-        if not (rng.get('k') == 'Struct' and H.res_path(rng['res']).endswith('RangeFrom')):
+        base, rng = idx[0].term[1], idx[0].term[2]
+        if not (rng[0] == 'struct' and rng[1] == 'std::ops::RangeFrom'):
             return False, 'index is not `[pos..]`'
-        pos = H.local_id(dict((a, b) for a, b in rng['fields'])['start'])
-        guard = None
-        for kind, ifn, pol in ig:
-            c = ifn['cond']
-            if c.get('k') == 'Binary' and c['op'] == '<' and pol is True and H.local_id(c['l']) == pos and H.local_id(c['r']) is not None:
-                guard = ifn
-                lenid = H.local_id(c['r'])
-        if guard is None:
+        pos = S.show(dict(rng[2])['start'])
+        LEN = 'serialize::SealableOutputBuffer::len(%s)' % S.show(base)
+        need = ('(%s < %s)' % (pos, LEN), True)
+        if need not in S.lits_at(idx[0]):
             return False, '`outbuf[pos..]` not on the true edge of `pos < len`'
-        lets = [n for n in H.walk(root) if n.get('k') == 'Let' and n['pat'].get('k') == 'Bind' and n['pat']['id'] == lenid]
-        li = H.peel(lets[0]['init']) if lets else {}
-        if not (li.get('k') == 'MethodCall' and li['name'] == 'len' and H.same_place(li['recv'], inode['e'])):
-            return False, '`len` is not the length of the indexed buffer'
-        for sg, sn in subs:
-            if not (H.local_id(sn['l']) == lenid and H.local_id(sn['r']) == pos and any(ifn is guard and pol for k, ifn, pol in sg)):
-                return False, 'a subtraction other than guarded `len - pos`'
-        # inside the loop the buffer is only indexed or drained-then-returned
-        for n in H.walk(guard['then']):
-            if n.get('k') == 'MethodCall' and H.same_place(n['recv'], inode['e']) and n['name'] not in ('drain_written',):
-                return False, 'outbuf.%s() inside the write loop' % n['name']
-        return True, '`outbuf[pos..]` and `len - pos` sit on the true edge of `pos < len`, len = outbuf.len(), buffer not resized inside the loop'
+        lens = [e for e in evs if e.kind == 'call' and S.show(e.term) == LEN]
+        if not lens or any(g[2] == 'loop' for g in lens[0].guards):
+            return False, '`len` is not the length of the indexed buffer taken before the loop'
+        for e in evs:
+            if e.kind == 'call' and e.callee.startswith('serialize::SealableOutputBuffer::') and e.callee.split('::')[-1] not in ('len', 'drain_written', 'clear', 'is_empty') \
+                    and any(g[2] == 'loop' for g in e.guards):
+                return False, 'outbuf.%s() inside the write loop' % e.callee.split('::')[-1]
+        return True, '`outbuf[pos..]` sits on the true edge of `pos < len`, len = outbuf.len() taken before the loop, buffer not resized inside the loop'
 
     def chk_outbuf_index_callers_guarded(self):
         a = self.callers('<serialize::SealableOutputBuffer as std::ops::Index<std::ops::RangeFrom<usize>>>::index')
@@ -381,17 +374,17 @@ class Checkers(object):
         b = self.callers('serialize::SealableOutputBuffer::drain_written')
         if a != {'serialize::SealableOutputBuffer::drain_written'} or b != {'io_loop::Inner::write_to_stream'}:
             return False, 'drain_written callers: %s / %s' % (sorted(a), sorted(b))
-        root = self.hir('io_loop::Inner::write_to_stream')
         ok, why = self.run('write_loop_guarded')
         if not ok:
             return ok, why
-        calls = self.if_guards(root, lambda n: n.get('k') == 'MethodCall' and n['name'] == 'drain_written')
+        evs, _ = self.ctx.events('io_loop::Inner::write_to_stream')
+        calls = [e for e in evs if e.kind == 'call' and e.callee == 'serialize::SealableOutputBuffer::drain_written']
         if len(calls) != 1:
             return False, 'expected one drain_written call'
-        guards, n = calls[0]
-        arg = H.local_id(n['args'][0])
-        if not any(ifn['cond'].get('k') == 'Binary' and ifn['cond']['op'] == '<' and H.local_id(ifn['cond']['l']) == arg and pol for k, ifn, pol in guards):
-            return False, 'drain_written argument is not the loop position'
+        arg = S.show(calls[0].args[1])
+        LEN = 'serialize::SealableOutputBuffer::len(%s)' % S.show(calls[0].args[0])
+        if ('(%s < %s)' % (arg, LEN), True) not in S.lits_at(calls[0]):
+            return False, 'drain_written argument is not the loop position under pos < len'
         return True, 'drain_written(pos) only from the write loop where pos < len'
 
     def chk_handshake_tokens_only_stream_heartbeat(self):
